@@ -54,17 +54,17 @@ def make_slice_and_pad(
     outside the array size.
     """
     z0_pad = z1_pad = 0
+    if size <= z0 or z1 <= 0:
+        # no overlap with the array (an empty slice cannot be mean-padded)
+        raise SubvolumeOutOfBoundError(slice(z0, z1), size)
+
     if z0 < 0:
         z0_pad = -z0
         z0 = 0
-    elif size < z0:
-        raise SubvolumeOutOfBoundError(slice(z0, z1), size)
 
     if size < z1:
         z1_pad = z1 - size
         z1 = size
-    elif z1 < 0:
-        raise SubvolumeOutOfBoundError(slice(z0, z1), size)
 
     out_of_bound = z0_pad != 0 or z1_pad != 0
     return slice(z0, z1), (z0_pad, z1_pad), out_of_bound
